@@ -218,13 +218,13 @@ void multiway_merge_exact_splitting(
         multisequence_partition(seqs_begin, seqs_end,
                                 ranks[static_cast<size_t>(s + 1)],
                                 offsets[s].begin(), comp);
+    }
 
-        if (!tight) // last one also needed and available
-        {
-            offsets[num_threads - 1].resize(num_seqs);
-            multisequence_partition(seqs_begin, seqs_end, size,
-                                    offsets[num_threads - 1].begin(), comp);
-        }
+    if (!tight) // last one also needed and available
+    {
+        offsets[num_threads - 1].resize(num_seqs);
+        multisequence_partition(seqs_begin, seqs_end, size,
+                                offsets[num_threads - 1].begin(), comp);
     }
 
     // for each processor
